@@ -591,10 +591,20 @@ type FuncContract struct {
 	AssignsSet bool
 	Loops      map[int]*LoopSpec
 	Covers     []*Clause
+	Cuts       []*CutSpec
 	File       string
 	Line       int
 	Structural []StructClause
 	Hints      []string
+}
+
+// CutSpec: an intermediate assertion that summarises everything before it (like a loop invariant without a back edge).
+// It is placed right after the N-th static call to Callee in the function.
+type CutSpec struct {
+	Label      string
+	Callee     string
+	N          int
+	Invariants []*Clause
 }
 
 type StructClause struct {
@@ -636,6 +646,7 @@ type File struct {
 	GhostVars   []Param
 	Axioms      []*Axiom
 	Guarded     []GuardSpec
+	GlobalInvs  []*Clause
 }
 
 type GuardSpec struct {
@@ -649,7 +660,7 @@ type GuardSpec struct {
 var clauseKeywords = map[string]bool{
 	"func": true, "props": true, "trusted": true, "pure": true, "ghost": true, "requires": true, "ensures": true,
 	"assigns": true, "may_panic": true, "loop": true, "axiom": true, "lemma": true, "ghostfield": true, "cover": true,
-	"structural": true, "inline": true, "guarded_by": true, "hint": true, "spec": true,
+	"cut": true, "structural": true, "inline": true, "guarded_by": true, "hint": true, "spec": true, "globalinv": true,
 }
 
 // splitLabel parses an optional "[P1,P2:label]" prefix.
@@ -845,6 +856,32 @@ func ParseFile(path string) (*File, error) {
 				}
 				cur.Assigns = append(cur.Assigns, es...)
 			}
+		case "cut":
+			// cut <label> after <callee>#<n> invariant [..] expr
+			parts := strings.SplitN(rest, " ", 5)
+			if len(parts) < 5 || parts[1] != "after" || parts[3] != "invariant" {
+				return nil, fmt.Errorf("%s:%d: bad cut clause (want: cut <label> after <callee>#<n> invariant <expr>)", path, rl.line)
+			}
+			cn := strings.SplitN(parts[2], "#", 2)
+			n := 1
+			if len(cn) == 2 {
+				n, _ = strconv.Atoi(cn[1])
+			}
+			var cs *CutSpec
+			for _, c := range cur.Cuts {
+				if c.Label == parts[0] {
+					cs = c
+				}
+			}
+			if cs == nil {
+				cs = &CutSpec{Label: parts[0], Callee: cn[0], N: n}
+				cur.Cuts = append(cur.Cuts, cs)
+			}
+			c, err := mkClause(parts[4], rl.line)
+			if err != nil {
+				return nil, err
+			}
+			cs.Invariants = append(cs.Invariants, c)
 		case "loop":
 			// loop N invariant [..] expr | loop N assigns ...
 			parts := strings.SplitN(rest, " ", 3)
@@ -888,6 +925,12 @@ func ParseFile(path string) (*File, error) {
 				return nil, err
 			}
 			f.Axioms = append(f.Axioms, &Axiom{Clause: *c, IsLemma: kw == "lemma", Induct: ind})
+		case "globalinv":
+			c, err := mkClause(rest, rl.line)
+			if err != nil {
+				return nil, err
+			}
+			f.GlobalInvs = append(f.GlobalInvs, c)
 		case "structural":
 			props, label, r := splitLabel(rest)
 			fs := strings.Fields(r)
